@@ -224,11 +224,11 @@ package parquet
 //@   modifies obj(r), rfault
 //@   ensures[C10] err == nil ==> (rfault ==> old(rfault))
 //@ loop GetBools#1
-//@   invariant freshOrNil(out) && freshOrNil(data)
+//@   invariant freshOrNil(out) && freshOrNil(data) && (rfault ==> old(rfault))
 //@ loop GetBools#2
-//@   invariant freshOrNil(out) && freshOrNil(data)
+//@   invariant freshOrNil(out) && freshOrNil(data) && (rfault ==> old(rfault))
 //@ loop GetBools#3
-//@   invariant freshOrNil(out) && freshOrNil(data)
+//@   invariant freshOrNil(out) && freshOrNil(data) && (rfault ==> old(rfault))
 //@ func min
 //@   modifies nothing
 //@ func unpackBools
